@@ -44,7 +44,7 @@ META = {
                     'clock_jump_years', 'same_input_twice', 'job_after_truncated_job', 'v1_compared', 'full_base'],
     'shrink_budget': 40,
 }
-RUN_TIMEOUT = 900
+RUN_TIMEOUT = 3600
 JOB = 'sim.props.c17:history_job'
 
 CLASSES = ['article', 'article', 'article', 'book', 'report', 'amsart', 'amsbook', 'memoir', 'beamer']
@@ -598,7 +598,7 @@ def _run(jobs, sw, root, mode='fork', hashseed=0, full=False):
              'env': {'environ': {'HOME': root, 'TEXINPUTS': root}}}
     args = {'jobs': [dict((k, v) for k, v in j.items() if k not in ('blocks',)) for j in jobs], 'full': full,
             'scrub': (scrub_patterns() if sw.get('scrub') and len(jobs) > 1 else None)}
-    st, out = lifetimes.run_lifetime(JOB, args, setup, mode=mode, hashseed=hashseed, timeout=240)
+    st, out = lifetimes.run_lifetime(JOB, args, setup, mode=mode, hashseed=hashseed, timeout=900)
     if st != 'ok' or not out.get('ok'):
         raise core.HarnessError('history lifetime failed: %s' % (out and out.get('traceback')))
     return out['result']
